@@ -4,6 +4,8 @@ C04 — property theorems (statements only; helper lemmas live in `Proofs/C04*.l
 import Mahotas.Proofs.C04Flood
 import Mahotas.Proofs.C04Term
 import Mahotas.Proofs.C04Lines
+import Mahotas.Proofs.C04Order
+import Mahotas.Proofs.C04LinesExact
 open Mahotas Mahotas.C04
 
 /-- **C04-T3 (the kernel is the specified flooding).** For every surface (any rank, shape, values),
@@ -117,3 +119,203 @@ example :
     (cwatershedModel surf mk [3, 3] bc).res = #[1, 1, 2, 1, 2, 2] ∧
     (cwatershedSpec surf mk [3, 3] bc).lines.data = #[false, true, true, true, false, false] ∧
     (cwatershedSpec surf mk [3, 3] bc).queue = [] := by decide +kernel
+
+/-- **C04-T7a (the specified flooding only looks at the order of the costs).** Let `surf` and `surf'` be
+two surfaces of one shape whose values compare alike at every pair of pixels (`surf[i] < surf[j]` exactly
+when `surf'[i] < surf'[j]`; equal values are then equal on both sides as well). Then, for every marker
+image and every neighbourhood — no further hypothesis — the specification flooding returns the same label
+image and the same lines image for both surfaces (the two runs pop the same pixel with the same insertion
+index at every iteration: the queue is only ever *compared*, by (cost, insertion index), and ties are
+broken by the insertion counter, which does not depend on the costs). -/
+theorem C04_spec_order_invariant (surf surf' markers : Img Int) (bshape : List Nat) (bc : Array Int)
+    (hs : surf'.shape = surf.shape)
+    (hord : ∀ i j, i < shapeSize surf.shape → j < shapeSize surf.shape →
+      (surf.data.getD i 0 < surf.data.getD j 0 ↔ surf'.data.getD i 0 < surf'.data.getD j 0)) :
+    (cwatershedSpec surf' markers bshape bc).label = (cwatershedSpec surf markers bshape bc).label ∧
+    (cwatershedSpec surf' markers bshape bc).lines = (cwatershedSpec surf markers bshape bc).lines := by
+  have h := cwatershedSpec_orel (surf := surf) (surf' := surf') ⟨hs, hord⟩ markers bshape bc
+  exact ⟨h.label, h.lines⟩
+
+/-- **C04-T7 (order-isomorphism invariance of the flooding — labels and lines, specification and kernel
+model).** If two surfaces of one shape compare alike at every pair of pixels (as in
+`C04_spec_order_invariant`: `surf[i] < surf[j] ↔ surf'[i] < surf'[j]` for all flat indices inside the
+image), then for markers of the surface's shape and a neighbourhood of the surface's rank both the
+specification flooding and the transliterated kernel `cwatershed<T>` return the same labels and the same
+lines for `surf'` as for `surf`. In particular the result is unchanged by any cost map that is strictly
+increasing on the values that occur (`C04_strict_mono_invariant`), e.g. by the reduction of a surface to
+its dense ranks (`C04_dense_rank_invariant`), which is what the harness sends for floating surfaces. -/
+theorem C04_order_isomorphism_invariant (surf surf' markers : Img Int) (bshape : List Nat) (bc : Array Int)
+    (hm : markers.shape = surf.shape) (hb : bshape.length = surf.shape.length)
+    (hs : surf'.shape = surf.shape)
+    (hord : ∀ i j, i < shapeSize surf.shape → j < shapeSize surf.shape →
+      (surf.data.getD i 0 < surf.data.getD j 0 ↔ surf'.data.getD i 0 < surf'.data.getD j 0)) :
+    (cwatershedSpec surf' markers bshape bc).label = (cwatershedSpec surf markers bshape bc).label ∧
+    (cwatershedSpec surf' markers bshape bc).lines = (cwatershedSpec surf markers bshape bc).lines ∧
+    (cwatershedModel surf' markers bshape bc).res = (cwatershedModel surf markers bshape bc).res ∧
+    (cwatershedModel surf' markers bshape bc).lines = (cwatershedModel surf markers bshape bc).lines := by
+  obtain ⟨h1, h2⟩ := C04_spec_order_invariant surf surf' markers bshape bc hs hord
+  have r := C04_model_refines_flood surf markers bshape bc hm hb
+  have r' := C04_model_refines_flood surf' markers bshape bc (by rw [hm, hs]) (by rw [hb, hs])
+  exact ⟨h1, h2, by rw [r.1, r'.1, h1], by rw [r.2.1, r'.2.1, h2]⟩
+
+/-- **C04-T7b (strictly increasing cost maps).** Let `phi : ℤ → ℤ` be strictly increasing *on the values
+that occur in the surface* (`a < b → phi a < phi b` for `a, b` among the surface's values; nothing is
+asked elsewhere), the surface holding at least as many values as its shape has pixels. Then flooding
+`phi ∘ surf` gives the same labels and the same lines as flooding `surf` — for the specification and for
+the kernel model. -/
+theorem C04_strict_mono_invariant (phi : Int → Int) (surf markers : Img Int) (bshape : List Nat)
+    (bc : Array Int) (hm : markers.shape = surf.shape) (hb : bshape.length = surf.shape.length)
+    (hsz : shapeSize surf.shape ≤ surf.data.size)
+    (hphi : ∀ a ∈ surf.data.toList, ∀ b ∈ surf.data.toList, a < b → phi a < phi b) :
+    (cwatershedSpec (mapSurf phi surf) markers bshape bc).label = (cwatershedSpec surf markers bshape bc).label ∧
+    (cwatershedSpec (mapSurf phi surf) markers bshape bc).lines = (cwatershedSpec surf markers bshape bc).lines ∧
+    (cwatershedModel (mapSurf phi surf) markers bshape bc).res = (cwatershedModel surf markers bshape bc).res ∧
+    (cwatershedModel (mapSurf phi surf) markers bshape bc).lines = (cwatershedModel surf markers bshape bc).lines :=
+  have h := mapSurf_ordEquiv phi surf hsz hphi
+  C04_order_isomorphism_invariant surf (mapSurf phi surf) markers bshape bc hm hb h.shape h.lt
+
+/-- **C04-T7c (the rank reduction of the harness is sound).** Replacing every cost by its *dense rank*
+(the number of distinct values of the surface below it — `numpy.unique(surf, return_inverse=True)[1]`)
+changes neither the labels nor the lines, for the specification and for the kernel model: the dense rank
+is strictly increasing on the values that occur. So a surface may be sent to the Lean driver as its dense
+ranks; for a floating surface without NaN the ranks are an integer surface with the very order pattern
+of the floats (`-0.0 = 0.0` on both sides). -/
+theorem C04_dense_rank_invariant (surf markers : Img Int) (bshape : List Nat) (bc : Array Int)
+    (hm : markers.shape = surf.shape) (hb : bshape.length = surf.shape.length)
+    (hsz : shapeSize surf.shape ≤ surf.data.size) :
+    (cwatershedSpec (mapSurf (denseRank surf.data) surf) markers bshape bc).label
+      = (cwatershedSpec surf markers bshape bc).label ∧
+    (cwatershedSpec (mapSurf (denseRank surf.data) surf) markers bshape bc).lines
+      = (cwatershedSpec surf markers bshape bc).lines ∧
+    (cwatershedModel (mapSurf (denseRank surf.data) surf) markers bshape bc).res
+      = (cwatershedModel surf markers bshape bc).res ∧
+    (cwatershedModel (mapSurf (denseRank surf.data) surf) markers bshape bc).lines
+      = (cwatershedModel surf markers bshape bc).lines :=
+  C04_strict_mono_invariant (denseRank surf.data) surf markers bshape bc hm hb hsz
+    (denseRank_strictMonoOn surf.data)
+
+/-- non-vacuity of T7b: every affine map with positive slope qualifies, for every surface -/
+example (surf markers : Img Int) (bshape : List Nat) (bc : Array Int)
+    (hm : markers.shape = surf.shape) (hb : bshape.length = surf.shape.length)
+    (hsz : shapeSize surf.shape ≤ surf.data.size) :
+    (cwatershedModel (mapSurf (fun x => 3 * x - 7) surf) markers bshape bc).res
+      = (cwatershedModel surf markers bshape bc).res :=
+  (C04_strict_mono_invariant (fun x => 3 * x - 7) surf markers bshape bc hm hb hsz
+    (by intro a _ b _ h; show 3 * a - 7 < 3 * b - 7; omega)).2.2.1
+
+/-- non-vacuity of T7c: the dense ranks of a concrete surface (they differ from the surface), and the
+hypotheses of `C04_order_isomorphism_invariant` hold between a surface and a non-affine re-valuation -/
+example :
+    (mapSurf (denseRank #[5, -7, 100, 5, 0, 3]) ⟨[2, 3], #[5, -7, 100, 5, 0, 3]⟩ : Img Int).data
+      = #[3, 0, 4, 3, 1, 2] := by decide +kernel
+
+/-- **C04-T8 (lines, exactly).** `cwatershedTrace` is the list of neighbour visits the kernel model
+performs, in order (defined in step with `modelRun`: same `extractMin`, same `modelVisit` fold): one
+event for every popped queue entry `next` and every entry of the neighbour table that passes the bounds
+decision, recording `next.position` (`pos`), `npos`, and what the kernel reads there at that moment:
+`status[npos]`, whether `npos` is in the queue, `rdata[next.position]` (`lab`) and `rdata[npos]` (`nlab`).
+For every surface, marker image, neighbourhood and flat index `i` — no hypothesis —
+(1) `lines[i]` is True in the output of the kernel model **iff** some visit of the trace looked at `i`
+while `status[i]` was grey and read two different labels — literally the C++
+`case grey: if (lines && rdata[next.position] != rdata[npos]) lines->at_flat(npos) = true`; and
+(2) the same with the *final* labels of the two pixels in place of the labels read at the visit (labels
+of non-white pixels are never written again; the popped pixel is black). -/
+theorem C04_lines_exact (surf markers : Img Int) (bshape : List Nat) (bc : Array Int) (i : Nat) :
+    ((cwatershedModel surf markers bshape bc).lines.getD i false = true ↔
+      ∃ ev ∈ cwatershedTrace surf markers bshape bc, ev.npos = i ∧ ev.status = 1 ∧ ev.lab ≠ ev.nlab) ∧
+    ((cwatershedModel surf markers bshape bc).lines.getD i false = true ↔
+      ∃ ev ∈ cwatershedTrace surf markers bshape bc, ev.npos = i ∧ ev.status = 1 ∧
+        (cwatershedModel surf markers bshape bc).res.getD ev.pos 0
+          ≠ (cwatershedModel surf markers bshape bc).res.getD i 0) :=
+  ⟨cwatershed_lines_exact surf markers bshape bc i, cwatershed_lines_exact_final surf markers bshape bc i⟩
+
+/-- **C04-T8a (the visits of the trace are what the words say).** For markers of the surface's shape and
+a neighbourhood of the surface's rank, every visit of the trace: pops a pixel of the image that is
+labelled; looks at a pixel of the image that is the popped pixel plus an offset of the neighbourhood;
+finds it grey exactly when it is in the queue at that moment (already labelled, not yet popped) and white
+exactly when it is still unlabelled; and the labels it reads are the final labels of the popped pixel
+and (unless white) of the neighbour. -/
+theorem C04_trace_visits (surf markers : Img Int) (bshape : List Nat) (bc : Array Int)
+    (hm : markers.shape = surf.shape) (hb : bshape.length = surf.shape.length) :
+    ∀ ev ∈ cwatershedTrace surf markers bshape bc,
+      ev.pos < shapeSize surf.shape ∧ ev.npos < shapeSize surf.shape ∧
+      (∃ o ∈ offsets bshape bc, unravelI surf.shape ev.npos = addPos (unravelI surf.shape ev.pos) o) ∧
+      (ev.status = 1 ↔ ev.queued = true) ∧ (ev.status = 0 ↔ ev.nlab = 0) ∧ ev.lab ≠ 0 ∧
+      ev.lab = (cwatershedModel surf markers bshape bc).res.getD ev.pos 0 ∧
+      (ev.status ≠ 0 → ev.nlab = (cwatershedModel surf markers bshape bc).res.getD ev.npos 0) := by
+  intro ev hev
+  have g := cwatershedTrace_good surf markers bshape bc hm hb ev hev
+  have f := modelTrace_final surf (neighbours surf.shape (offsets bshape bc)) (fuelOf surf.shape)
+    (modelInit surf markers) (modelInit_sized surf markers) ev hev
+  exact ⟨g.pos_lt, g.npos_lt, g.nb, g.grey, g.white, g.lab, f.1, f.2⟩
+
+/-- **C04-T8b (lines = queued pixels visited from another label).** For markers of the surface's shape
+and a neighbourhood of the surface's rank: a pixel `i` is True in the lines output — of the kernel model
+and of the specification flooding alike — **iff** at some visit of the trace `i` was looked at from a
+popped pixel while `i` was in the queue (labelled, not yet popped) and the final label of the popped
+pixel differs from the final label of `i`. (By `C04_trace_visits` that visit goes from a labelled pixel
+of the image through an offset of the neighbourhood, so this sharpens `C04_lines_on_boundaries` to an
+equivalence.) -/
+theorem C04_lines_exact_queued (surf markers : Img Int) (bshape : List Nat) (bc : Array Int)
+    (hm : markers.shape = surf.shape) (hb : bshape.length = surf.shape.length) (i : Nat) :
+    ((cwatershedModel surf markers bshape bc).lines.getD i false = true ↔
+      ∃ ev ∈ cwatershedTrace surf markers bshape bc, ev.npos = i ∧ ev.queued = true ∧
+        (cwatershedModel surf markers bshape bc).res.getD ev.pos 0
+          ≠ (cwatershedModel surf markers bshape bc).res.getD i 0) ∧
+    ((cwatershedSpec surf markers bshape bc).lines.data.getD i false = true ↔
+      ∃ ev ∈ cwatershedTrace surf markers bshape bc, ev.npos = i ∧ ev.queued = true ∧
+        (cwatershedSpec surf markers bshape bc).label.data.getD ev.pos 0
+          ≠ (cwatershedSpec surf markers bshape bc).label.data.getD i 0) := by
+  have key : (cwatershedModel surf markers bshape bc).lines.getD i false = true ↔
+      ∃ ev ∈ cwatershedTrace surf markers bshape bc, ev.npos = i ∧ ev.queued = true ∧
+        (cwatershedModel surf markers bshape bc).res.getD ev.pos 0
+          ≠ (cwatershedModel surf markers bshape bc).res.getD i 0 := by
+    rw [cwatershed_lines_exact_final]
+    constructor
+    · rintro ⟨ev, hev, h1, h2, h3⟩
+      exact ⟨ev, hev, h1, (cwatershedTrace_good surf markers bshape bc hm hb ev hev).grey.1 h2, h3⟩
+    · rintro ⟨ev, hev, h1, h2, h3⟩
+      exact ⟨ev, hev, h1, (cwatershedTrace_good surf markers bshape bc hm hb ev hev).grey.2 h2, h3⟩
+  have r := C04_model_refines_flood surf markers bshape bc hm hb
+  refine ⟨key, ?_⟩
+  rw [← r.1, ← r.2.1]
+  exact key
+
+/-- non-vacuity of T8: on the 2×3 example the trace has 14 visits; exactly three of them satisfy the
+C++ condition, at the pixels 1, 3 and 2 (each queued at that moment), and these are the True pixels -/
+example :
+    let surf : Img Int := ⟨[2, 3], #[0, 1, 2, 1, 0, 1]⟩
+    let mk : Img Int := ⟨[2, 3], #[1, 0, 0, 0, 0, 2]⟩
+    let bc : Array Int := #[0, 1, 0, 1, 1, 1, 0, 1, 0]
+    (cwatershedTrace surf mk [3, 3] bc).length = 14 ∧
+    ((cwatershedTrace surf mk [3, 3] bc).filter (fun ev => ev.status == 1 && ev.lab != ev.nlab)).map
+        (fun ev => (ev.pos, ev.npos, ev.queued, ev.lab, ev.nlab))
+      = [(4, 1, true, 2, 1), (4, 3, true, 2, 1), (1, 2, true, 1, 2)] ∧
+    (cwatershedModel surf mk [3, 3] bc).lines = #[false, true, true, true, false, false] := by
+  decide +kernel
+
+/-- **C04-T8c (lines of the specification flooding, exactly, over its own trace).** `cwatershedSpecTrace`
+is the list of neighbour visits of the specification flooding, in order (defined in step with `specRun`:
+same `extractMin`, same `specVisit` fold): one event for every popped pixel `p` and every offset with
+`q = p + off` inside the image, recording `p`, `q`, whether `q` is in the queue, and the labels of `p` and
+`q` at that moment. For every surface, marker image, neighbourhood and position `r` — no hypothesis —
+`lines[r]` is True in the specification's output **iff** some visit of its trace looked at `r` while `r`
+was labelled and in the queue (assigned a label, not yet popped) from a popped pixel carrying a different
+label. -/
+theorem C04_spec_lines_exact (surf markers : Img Int) (bshape : List Nat) (bc : Array Int) (r : List Int) :
+    (cwatershedSpec surf markers bshape bc).lines.getD r false = true ↔
+      ∃ ev ∈ cwatershedSpecTrace surf markers bshape bc,
+        ev.q = r ∧ ev.lq ≠ 0 ∧ ev.queued = true ∧ ev.lp ≠ ev.lq :=
+  cwatershedSpec_lines_exact surf markers bshape bc r
+
+/-- non-vacuity of T8c: on the 2×3 example the specification makes 20 visits (the 14 of the kernel plus the
+6 centre visits whose zero delta the kernel skips); the same three make a line pixel -/
+example :
+    let surf : Img Int := ⟨[2, 3], #[0, 1, 2, 1, 0, 1]⟩
+    let mk : Img Int := ⟨[2, 3], #[1, 0, 0, 0, 0, 2]⟩
+    let bc : Array Int := #[0, 1, 0, 1, 1, 1, 0, 1, 0]
+    (cwatershedSpecTrace surf mk [3, 3] bc).length = 20 ∧
+    ((cwatershedSpecTrace surf mk [3, 3] bc).filter
+        (fun ev => ev.lq != 0 && ev.queued && ev.lp != ev.lq)).map (fun ev => (ev.p, ev.q, ev.lp, ev.lq))
+      = [([1, 1], [0, 1], 2, 1), ([1, 1], [1, 0], 2, 1), ([0, 1], [0, 2], 1, 2)] := by
+  decide +kernel
